@@ -705,7 +705,7 @@ class EscapeAnalysis:
             # `kwargs.pop("k")` / `kwargs["k"]` on the ** dictionary when the call passes no such keyword:
             # the statement raises KeyError, nothing after it in this block runs
             sh = dict(shape or ())
-            for x in walk_no_nested(st.value):
+            for x in self._certain(st.value, shape):
                 kd = None
                 if isinstance(x, ast.Call) and isinstance(x.func, ast.Attribute) and x.func.attr == "pop" and len(x.args) == 1 and not x.keywords and isinstance(x.func.value, ast.Name):
                     kd = (x.func.value.id, x.args[0])
@@ -890,6 +890,33 @@ class EscapeAnalysis:
             elif isinstance(n, (ast.ListComp, ast.GeneratorExp, ast.SetComp, ast.DictComp)):
                 pass  # elements are walked by walk_no_nested anyway
         return out
+
+    def _certain(self, root, shape):
+        """sub-expressions that are evaluated on EVERY evaluation of root under the call shape: the arm of a
+        conditional expression only if the shape decides its test, the first operand of and/or only, no
+        comprehension / lambda bodies, the first comparator of a comparison chain only."""
+        todo = [root]
+        while todo:
+            n = todo.pop()
+            if isinstance(n, (ast.FunctionDef, ast.AsyncFunctionDef, ast.Lambda, ast.ClassDef, ast.ListComp, ast.SetComp, ast.DictComp, ast.GeneratorExp)):
+                continue
+            yield n
+            if isinstance(n, ast.IfExp):
+                d = self.decide(n.test, shape)
+                todo.append(n.test)
+                if d is True:
+                    todo.append(n.body)
+                elif d is False:
+                    todo.append(n.orelse)
+                continue
+            if isinstance(n, ast.BoolOp):
+                todo.append(n.values[0])
+                continue
+            if isinstance(n, ast.Compare):
+                todo.append(n.left)
+                todo.append(n.comparators[0])
+                continue
+            todo.extend(reversed(list(ast.iter_child_nodes(n))))
 
     def _live(self, root, shape):
         """walk_no_nested that skips the dead arm of a conditional expression
